@@ -138,21 +138,6 @@ func init() {
 				return nil, false
 			}
 		}
-		if sv.K == SOpaque && (sv.Pre == "http://" || sv.Pre == "https://") {
-			// "scheme://" + X with X symbolic: X is taken to be a bare host (no path, query or
-			// fragment) - the documented shape of an upstream `to` after rewriting
-			k := len(sv.Pre)
-			host := opaqueStr(fmt.Sprintf("(str.substr %s %d (- (str.len %s) %d))", sv.T, k, sv.T, k))
-			for _, bad := range []string{"/", "?", "#", "@", " "} {
-				c.s.addPC(tNot("(str.contains " + host.T + " " + smtStrLit(bad) + ")"))
-			}
-			c.s.addPC(tNot(tEq(host.T, `""`)))
-			uv := c.w.urlToValue(&url.URL{Scheme: strings.TrimSuffix(sv.Pre, "://")})
-			st := c.w.namedType("net/url", "URL").Underlying().(*types.Struct)
-			uv.F[fieldIndex(st, "Host")] = host
-			c.setTuple(c.s.alloc(uv), IfaceV{})
-			return nil, false
-		}
 		if sv.K != SLit {
 			return c.fallbackModel("url_Parse")
 		}
